@@ -177,6 +177,8 @@ func (s *serveOpts) keygen(c echo.Context) error {
 func (s *serveOpts) bulk(c echo.Context) error {
 	ctx := c.Request().Context()
 	c.Response().Header().Set(echo.HeaderContentType, echo.MIMEApplicationJSON)
+	// responses are written while the request body is still being read
+	_ = http.NewResponseController(c.Response()).EnableFullDuplex()
 	c.Response().WriteHeader(http.StatusOK)
 
 	enc := json.NewEncoder(c.Response())
